@@ -418,6 +418,16 @@ def cases(draw, kind, precision, tdtypes, pool_seed=0):
         var_lab = np.vectorize(lambda v: repl.get(int(v), int(v)), otypes=['int64'])(lab)
     mx = int(max(var_lab.max(), lab.max(), max(var_parts)))
     ddt = draw(st.sampled_from([d for d in gen.CLASS_DTYPES if mx <= np.iinfo(d).max]))
+    if np.dtype(ddt).kind == 'i' and mx < 2 ** 16 and rel in ('rename', 'permute', 'superset', 'replace') and not is_attack and draw(st.integers(0, 2)) == 0:
+        # negative values in signed data are foreign values too (same positions in base and variant)
+        for _ in range(draw(st.integers(1, 3))):
+            r_, c_ = int(g.integers(lab.shape[0])), int(g.integers(lab.shape[1]))
+            if kind != 'tbuild' or (np.isin(lab[:, 0], list(range(k))).sum() - 1) >= 2 * k:
+                v_ = -int(g.choice([1, 2, 3, 7, 100]))
+                lab = lab.copy()
+                var_lab = var_lab.copy()
+                lab[r_, c_] = v_
+                var_lab[r_, c_] = v_
     case['labels'] = lab.astype(ddt)
     case['var_labels'] = var_lab.astype(ddt)
     case['var_partitions'] = var_parts
